@@ -1074,8 +1074,12 @@ impl<T: Storage> Raft<T> {
                 );
             }
             let self_id = self.id;
-            let pr = self.mut_prs().get_mut(self_id).unwrap();
-            if pr.maybe_update(index) && self.maybe_commit() && self.should_bcast_commit() {
+            // A leader that has applied its own removal is no longer tracked.
+            let updated = match self.mut_prs().get_mut(self_id) {
+                Some(pr) => pr.maybe_update(index),
+                None => false,
+            };
+            if updated && self.maybe_commit() && self.should_bcast_commit() {
                 self.bcast_append();
             }
         }
